@@ -654,21 +654,6 @@ def heading_before_open(sk, n):
     return o in sk and h in sk and sk.index(h) < sk.index(o)
 
 
-def empty_rows_before_first_column(events):
-    """per user number: how many rows were ended in this call before any value was punched for that number
-    (rows of a block that has no column yet)"""
-    seen, cnt = set(), {}
-    for e in events:
-        p = e.split(" ")
-        if p[1] in ("pd", "ps", "pi"):
-            seen.add(int(p[3]))
-        elif p[1] == "endrow":
-            n = int(p[3])
-            if n not in seen and len(p) <= 4:       # no pending USER_PUNCH heading either
-                cnt[n] = cnt.get(n, 0) + 1
-    return cnt
-
-
 def skeleton_of_events(events):
     """recorded punch_open calls and heading lines of a call: o<n> / h<n>"""
     sk = []
@@ -954,7 +939,7 @@ def run_history(ctx, exe, inputs, cfgs, cells_cap=None, names=None, db=DB):
         r = {"diffs": diffs, "oracle": bad, "ret": ret, "events": len(events), "views": views, "info": info,
              "rows": sum(int(dict(x.split("=") for x in v)["rows"]) for v in views.get("sel", {}).values()),
              "redefined": sorted(info["late_redef"]), "call": k, "rel": [],
-             "sk_impl": skeleton_of_events(events), "kept_off": kept_off, "early_empty": empty_rows_before_first_column(events)}
+             "sk_impl": skeleton_of_events(events), "kept_off": kept_off}
         # relation: defined numbers read from the texts = numbers the object reports (error-free calls)
         judged = (ret == 0 and not info["inverse"])
         if judged and all(x["ret"] == 0 for x in res):
@@ -1074,20 +1059,11 @@ def handle_history_result(ctx, inputs, cfgs, k, r, hoisted):
         if key in ("sel-string-rows", "sel-file-rows", "sel-file-ne-string") and n_user in r["redefined"]:
             # narrow rule: a SELECTED_OUTPUT n block that the INPUT TEXT of this call re-reads in a later simulation
             ctx.finding("selected-output-redefined-within-call", text, dict(rep, oracle=r["oracle"][:5]))
-        elif key in ("sel-string-rows", "sel-file-rows") and early_empty_explains(text, r.get("early_empty", {}).get(n_user, 0)):
-            # narrow rule: the surplus of text lines over table rows is exactly the number of rows this call ended for the
-            # number before its first value was punched (CSelectedOutput::EndRow does not count a row while no column exists)
-            ctx.finding("rows-before-first-column-not-counted", text, dict(rep, oracle=r["oracle"][:5]))
         elif key.startswith("sel-") and mixed:
             ctx.finding("get_sel_out_string_on-ignores-n", text, dict(rep, oracle=r["oracle"][:5]))
         else:
             ctx.violation("history: model and code agree but the property's relation fails: " + text, dict(rep, oracle=r["oracle"][:5]))
             return
-
-
-def early_empty_explains(text, k):
-    m = _re.search(r"has (\d+) lines, table (\d+) rows", text)
-    return bool(m) and k > 0 and int(m.group(2)) > 0 and int(m.group(1)) - int(m.group(2)) == k
 
 
 def run_histories(ctx, exe, n, with_cells=True):
